@@ -502,6 +502,9 @@ func C07() int {
 		c07RunCLI(s, c, jb.m, ji, cases[jb.lo:jb.hi])
 	})
 
+	// ---- option walks in one long-lived process (no setter sequence may make a line panic)
+	optionHistory(s, c, CoreCorpus(gen.New(c.Seed*77+7), 200))
+
 	// ---- (f) lines around and beyond the reader's limit
 	c07LongLines(s, c)
 
